@@ -717,7 +717,14 @@ fn c19_check(case: &Case, ctx: &mut Ctx) -> Result<(), String> {
         let n = occ.overlapping(s0, e0, case.anchored).len();
         let _g = BudgetGuard::arm(budget);
         let r = guard(|| s.overlapping_steps(input(hay, case.span, case.anchored, false), 0, n + 8));
-        r.map_err(|p| budget_msg(p, "overlapping drain"))?.map_err(|e| format!("overlapping drain: Err({})", e))?;
+        let drained = r.map_err(|p| budget_msg(p, "overlapping drain"))?.map_err(|e| format!("overlapping drain: Err({})", e))?;
+        if drained.len() > n {
+            return Err(format!(
+                "overlapping drain: {} matches reported where only {} occurrences exist - the stepping search keeps reporting without advancing through the span",
+                drained.len(),
+                n
+            ));
+        }
         check_counters("overlapping drain", span_len, dfa, &mut max_fail)?;
         // stream search (unanchored, non-empty patterns)
         if !case.anchored && cfg.supports_anchored(false) && !case.patterns.is_empty() && case.patterns.iter().all(|p| !p.is_empty()) {
